@@ -129,7 +129,7 @@ def model_eval(circuits: list[stim.Circuit], tag: str, timeout=1500, elab=False)
             continue
         metas.append({"n": n, "slots": slots})
         cov = (f",\n                    match elab_circuit {n - 1}%nat {term} with\n"
-               f"                    | Some cs => parse_is_circuit {n - 1}%nat {term} cs && forallb (cinstr_lanes_ok {n}%nat) cs\n"
+               f"                    | Some cs => parse_is_circuit {n - 1}%nat {term} cs && forallb (cinstr_lanes_ok {n}%nat) cs && ccircuit_ok_unit {n}%nat cs\n"
                f"                    | None => false end") if elab else ""
         terms.append(
             f"match build {n - 1}%nat {term} with\n"
